@@ -476,6 +476,7 @@ class ZoneDomain(Domain):
             extra.append((x, v.base, v.hi))
             extra.append((v.base, x, -v.lo))
         # min / max give relational facts about the result
+        ghost = None
         if isinstance(rhs, ast.Call) and dotted(rhs.func) in ('min', 'max') \
                 and len(rhs.args) >= 2 and not rhs.keywords:
             for a in rhs.args:
@@ -485,6 +486,18 @@ class ZoneDomain(Domain):
                         extra.append((x, av.base, av.hi))      # x <= a
                     else:
                         extra.append((av.base, x, -av.lo))     # x >= a
+                elif av.base == x:
+                    # x = min(.., x): the new value is bounded by the old one, which a ghost name keeps
+                    # while x itself is forgotten
+                    ghost = f'#old:{x}'
+                    s.forget(ghost)
+                    s.add(ghost, x, 0)
+                    s.add(x, ghost, 0)
+                    s.close()
+                    if dotted(rhs.func) == 'min':
+                        extra.append((x, ghost, av.hi))
+                    else:
+                        extra.append((ghost, x, -av.lo))
         s.forget(x)
         s.add(x, ZERO, hi)
         s.add(ZERO, x, -lo)
@@ -500,6 +513,8 @@ class ZoneDomain(Domain):
         if v.isint:
             s.ints.add(x)
         s.close()
+        if ghost is not None:
+            s.forget(ghost)
 
     def _havoc_target(self, s: Zone, t: ast.AST) -> None:
         if isinstance(t, (ast.Tuple, ast.List)):
